@@ -228,7 +228,10 @@ def _decide_one(src, new, feeds, rel, abs_):
 
 DISCONTINUOUS = {"Ceil", "Floor", "Round", "Sign", "Equal", "Less", "Greater", "LessOrEqual", "GreaterOrEqual", "ArgMax", "ArgMin", "TopK", "Mod",
                  "IsInf", "IsNaN", "Hardmax", "Cast", "CastLike", "NonZero", "Where", "Not", "And", "Or", "Xor", "Unique", "OneHot", "Div", "Reciprocal",
-                 "Log", "Sqrt", "Pow", "Tan", "If", "Loop", "Shrink", "ThresholdedRelu", "BitShift", "Trilu"}
+                 "Log", "Sqrt", "Pow", "Tan", "If", "Loop", "Shrink", "ThresholdedRelu", "BitShift", "Trilu",
+                 # ill-conditioned rather than discontinuous: a product multiplies the relative errors of its factors, and a factor that is
+                 # the result of a cancellation has no relative accuracy at all
+                 "ReduceProd"}
 
 
 def _roundoff_through_discontinuity(src, new, feeds, scale, k, rel, abs_):
